@@ -1512,6 +1512,57 @@ def _closure_in_block(fn: FunctionInfo, owner: ast.AST, log: list[str]) -> None:
                         _closure_in_block(fn, hd, log)
 
 
+def normalise_static_as_class(repo) -> list[str]:
+    """A method that the reference has as a @staticmethod and that is now a
+    @classmethod using `cls` where it named its own class: with no subclass
+    of that class anywhere in the program `cls` IS the class, so the method
+    reads as the static method it was."""
+    log: list[str] = []
+    bases: set[str] = set()
+    for mod in repo.modules.values():
+        for n in ast.walk(mod.tree):
+            if isinstance(n, ast.ClassDef):
+                for b in n.bases:
+                    for x in ast.walk(b):
+                        if isinstance(x, ast.Name):
+                            bases.add(x.id)
+                        elif isinstance(x, ast.Attribute):
+                            bases.add(x.attr)
+    for mname, mod in repo.modules.items():
+        if mod not in repo.hand_written():
+            continue
+        for cls in [n for n in ast.walk(mod.tree)
+                    if isinstance(n, ast.ClassDef)]:
+            if cls.name in bases:
+                continue
+            for m in cls.body:
+                if not isinstance(m, (ast.FunctionDef, ast.AsyncFunctionDef)):
+                    continue
+                ref = REFERENCE_SIGS.get(f"{mname}:{cls.name}.{m.name}")
+                decos = [ast.unparse(d) for d in m.decorator_list]
+                if ref is None or "classmethod" not in decos or \
+                        not m.args.args or m.args.args[0].arg != "cls" or \
+                        (ref and ref[0] == "cls") or \
+                        len(ref) != len(m.args.args) - 1 + len(
+                            m.args.kwonlyargs):
+                    continue
+                if any(isinstance(x, ast.Name) and x.id == "cls" and
+                       isinstance(x.ctx, (ast.Store, ast.Del))
+                       for x in ast.walk(m)):
+                    continue
+                for x in ast.walk(m):
+                    if isinstance(x, ast.Name) and x.id == "cls":
+                        x.id = cls.name
+                m.args.args = m.args.args[1:]
+                for d in m.decorator_list:
+                    if ast.unparse(d) == "classmethod":
+                        d.id = "staticmethod"
+                log.append(f"{mname}:{cls.name}.{m.name}: classmethod of a "
+                           "class without subclasses read as the static "
+                           "method of the reference")
+    return log
+
+
 def normalise(repo: Repo, resolver_factory, max_rounds: int = 3):
     """Return (repo', log): repo with non-reference helpers inlined."""
     log: list[str] = []
@@ -1529,6 +1580,11 @@ def normalise(repo: Repo, resolver_factory, max_rounds: int = 3):
     clog = normalise_closure_defs(repo)
     if clog:
         log += clog
+        repo = Repo(root=repo.root, overlay=repo.overlay, trees={
+            name: mod.tree for name, mod in repo.modules.items()})
+    slog = normalise_static_as_class(repo)
+    if slog:
+        log += slog
         repo = Repo(root=repo.root, overlay=repo.overlay, trees={
             name: mod.tree for name, mod in repo.modules.items()})
     from sa.dispatch import normalise_dispatch
